@@ -122,7 +122,7 @@ class Budget(tuple):
 
     """
     def __new__(cls, epsilon, delta):
-        if epsilon < 0:
+        if not epsilon >= 0:
             raise ValueError("Epsilon must be non-negative")
 
         if not 0 <= delta <= 1:
